@@ -150,11 +150,11 @@ Section Run.
   Qed.
 
   (* the live phase from a queue the joined consumer has yet to receive: J1 = its stack once it has *)
-  Lemma live_run fuel w V queue count ps out Jout J1 :
+  Lemma live_run fuel w V queue count ps J0 out Jout J1 :
     LOK w V -> eventual_tip c w canon ->
-    sfold [] out = Some Jout -> sfold Jout queue = Some J1 -> Rel U start V J1 ->
+    sfold J0 out = Some Jout -> sfold Jout queue = Some J1 -> Rel U start V J1 ->
     let res := live_phase fuel c w queue count ps out in
-    exists st, sfold [] (fst res) = Some st /\
+    exists st, sfold J0 (fst res) = Some st /\
                (snd res = JNil -> from_num start (rev st) = from_num start canon).
   Proof.
     intros HL Htip Hout Hq HR res.
@@ -279,23 +279,20 @@ Section Run.
     destruct (h_ready (w_hub w)); [|discriminate]. intros H. injection H as <-. auto.
   Qed.
 
-  Lemma file_run fuel : forall D' Dpre w lowest count ps,
+  (* J0: the consumer before the stream; out: what it has been given so far, after which it holds Dpre *)
+  Lemma file_run fuel J0 : forall D' Dpre out w lowest count ps,
     WOK w -> eventual_tip c w canon -> files_agree c w merged ->
+    sfold J0 out = Some (rev Dpre) ->
     (exists x, lnk x (Dpre ++ D')) -> (forall b, In b (Dpre ++ D') -> In b merged) ->
     (forall z r, Dpre ++ D' = z :: r -> bnum z <= start) ->
-    let res := file_phase fuel c w lowest (map fev D') JNil count ps (map fev Dpre) in
-    exists st, sfold [] (fst res) = Some st /\
+    let res := file_phase fuel c w lowest (map fev D') JNil count ps out in
+    exists st, sfold J0 (fst res) = Some st /\
       (snd res = JNil -> rev st = Dpre ++ D' \/ from_num start (rev st) = from_num start canon).
   Proof.
-    induction D' as [|bn D' IH]; intros Dpre w lowest count ps HW Htip Hagr [x0 Hl] Hin Hbot res.
-    - unfold res. cbn [map file_phase fst snd]. exists (rev Dpre ++ []). split.
-      + rewrite <- (map_eblk_fev Dpre) at 2. apply sfold_pushes; [apply fev_new|].
-        rewrite map_eblk_fev. exists x0. rewrite app_nil_r in Hl. exact Hl.
-      + intros _. left. rewrite !app_nil_r, rev_involutive. reflexivity.
-    - assert (HoutJ : sfold [] (map fev Dpre) = Some (rev Dpre)).
-      { rewrite <- (app_nil_r (rev Dpre)). rewrite <- (map_eblk_fev Dpre) at 2. apply sfold_pushes; [apply fev_new|].
-        rewrite map_eblk_fev. exists x0. eapply linked_prefix. exact Hl. }
-      assert (HlD : lnk x0 (Dpre ++ [bn])).
+    induction D' as [|bn D' IH]; intros Dpre out w lowest count ps HW Htip Hagr Hout [x0 Hl] Hin Hbot res.
+    - unfold res. cbn [map file_phase fst snd]. exists (rev Dpre). split; [exact Hout|].
+      intros _. left. rewrite app_nil_r, rev_involutive. reflexivity.
+    - assert (HlD : lnk x0 (Dpre ++ [bn])).
       { change (bn :: D') with ([bn] ++ D') in Hl. rewrite app_assoc in Hl. eapply linked_prefix. exact Hl. }
       assert (HDU : Forall (fun y => In y U) Dpre).
       { apply Forall_forall. intros y Hy. apply Hmerged_U. apply Hin. apply in_or_app. left. exact Hy. }
@@ -315,19 +312,24 @@ Section Run.
         { intros z r Ez. apply (Hbot z (r ++ D')). change (bn :: D') with ([bn] ++ D'). rewrite app_assoc, Ez. reflexivity. }
         destruct (join_rel_core V burst Dpre bn (map seg_blk suf) l hd HVne HcV Hhd Hmap Hnew HbU Hlsuf Hlast
                     (ex_intro _ x0 HlD) HDU Hbot') as (J1 & HJ1 & HR).
-        destruct (live_run fuel w V burst count ps (map fev Dpre) (rev Dpre) J1 (conj Hrd (conj HV Hrest)) Htip HoutJ HJ1 HR)
+        destruct (live_run fuel w V burst count ps J0 out (rev Dpre) J1 (conj Hrd (conj HV Hrest)) Htip Hout HJ1 HR)
           as (st & Hst & Hfin).
         exists st. split; [exact Hst|]. intros Hn. right. exact (Hfin Hn).
       + (* delivered from the file *)
         rewrite chain_default. cbn [nu_ev file_event estep matches_new orb].
         destruct (pauses_after (count + 1) ps w) as [m Em].
         destruct (apply_pauses c (count + 1) ps w) as [[ps' w'] evs'] eqn:Ep. cbn [fst snd] in Em. subst w'.
-        assert (Eout : map fev Dpre ++ [fev bn] = map fev (Dpre ++ [bn])) by (rewrite map_app; reflexivity).
-        rewrite Eout.
+        assert (Hout' : sfold J0 (out ++ [fev bn]) = Some (rev (Dpre ++ [bn]))).
+        { rewrite sfold_app, Hout. cbn [sfold]. unfold sapply. cbn [estep file_event eblk].
+          rewrite rev_app_distr. cbn [rev app].
+          destruct (rev Dpre) as [|top r] eqn:Er; [reflexivity|].
+          assert (ED : Dpre = rev r ++ [top]) by (rewrite <- (rev_involutive Dpre), Er; reflexivity).
+          rewrite ED in HlD. pose proof (linked_mid _ _ _ _ HlD) as Hp. rewrite tip_snoc in Hp.
+          rewrite Hp, N.eqb_refl. reflexivity. }
         assert (EDD : (Dpre ++ [bn]) ++ D' = Dpre ++ bn :: D') by (rewrite <- app_assoc; reflexivity).
-        specialize (IH (Dpre ++ [bn]) (world_after c m w)
+        specialize (IH (Dpre ++ [bn]) (out ++ [fev bn]) (world_after c m w)
                       (if (lowest <=? bnum (eblk (fev bn))) && matches_new (estep (fev bn)) then hub_lowest (w_hub w) else lowest)
-                      (count + 1) ps' (wok_after m w HW) (tip_after w m Htip) (agree_after w m merged Hagr)).
+                      (count + 1) ps' (wok_after m w HW) (tip_after w m Htip) (agree_after w m merged Hagr) Hout').
         rewrite EDD in IH. exact (IH (ex_intro _ x0 Hl) Hin Hbot).
   Qed.
 
@@ -349,7 +351,7 @@ Section Run.
               exists st, sfold [] (fst (file_phase fuel c w lowest (map fev D) JNil 0 ps [])) = Some st /\
                 (snd (file_phase fuel c w lowest (map fev D) JNil 0 ps []) = JNil ->
                  rev st = D \/ from_num start (rev st) = from_num start canon)).
-    { intros fuel lowest. exact (file_run fuel D [] w lowest 0 ps HW Htip Hagr HlD HinD HbotD). }
+    { intros fuel lowest. exact (file_run fuel [] D [] [] w lowest 0 ps HW Htip Hagr eq_refl HlD HinD HbotD). }
     unfold res, stream_run. cbv zeta.
     change (abs_start (j_first c) (j_start c) match hub_head (w_hub w) with Some (r, _) => rn r | None => 0 end)
       with (run_start c w).
@@ -368,7 +370,7 @@ Section Run.
         { intros z r Ez. cbn [app] in Ez. injection Ez as <- _. lia. }
         destruct (join_rel_core V burst [] (seg_blk x) (map seg_blk suf) l hd HVne HcV Hhd Hmap Hnew HbU Hlsuf Hlast
                     Hl1 (Forall_nil _) Hbot1) as (J1 & HJ1 & HR).
-        pose proof (fun f => live_run f w V burst 0 ps [] [] J1 (conj Hrd (conj HV Hrest)) Htip eq_refl HJ1 HR) as HL.
+        pose proof (fun f => live_run f w V burst 0 ps [] [] [] J1 (conj Hrd (conj HV Hrest)) Htip eq_refl HJ1 HR) as HL.
         match goal with |- context [live_phase ?f _ _ _ _ _ _] => destruct (HL f) as (st & Hst & Hfin) end.
         exists st. split; [exact Hst|]. intros Hn. right. exact (Hfin Hn).
       + apply Hfile.
